@@ -5,12 +5,37 @@ open Bluge.Highlight
 
 /-! ### OrderTermLocations -/
 
-theorem mem_insertByStart {x y : TermLocation} {l : List TermLocation} :
-    y ∈ insertByStart x l ↔ y = x ∨ y ∈ l := by
+theorem lessTL_start {tb : Bool} {a b : TermLocation} (h : lessTL tb a b = true) : a.start ≤ b.start := by
+  unfold lessTL at h
+  split at h
+  · simp only [Bool.or_eq_true, Bool.and_eq_true, decide_eq_true_eq] at h; omega
+  · simp only [decide_eq_true_eq] at h; omega
+
+theorem not_lessTL_start {tb : Bool} {a b : TermLocation} (h : lessTL tb a b = false) : b.start ≤ a.start := by
+  unfold lessTL at h
+  split at h
+  · simp only [Bool.or_eq_false_iff, Bool.and_eq_false_imp, decide_eq_false_iff_not, decide_eq_true_eq] at h; omega
+  · simp only [decide_eq_false_iff_not] at h; omega
+
+theorem lessTL_asymm {tb : Bool} {a b : TermLocation} (h : lessTL tb a b = true) : lessTL tb b a = false := by
+  unfold lessTL at h ⊢
+  cases tb
+  · simp only [Bool.false_eq_true, if_false, decide_eq_true_eq, decide_eq_false_iff_not] at h ⊢; omega
+  · simp only [if_true, Bool.or_eq_true, Bool.and_eq_true, decide_eq_true_eq] at h
+    simp only [if_true, Bool.or_eq_false_iff, decide_eq_false_iff_not, Bool.and_eq_false_imp, decide_eq_true_eq]
+    constructor
+    · omega
+    · intro; omega
+
+theorem lessTL_irrefl (tb : Bool) (a : TermLocation) : lessTL tb a a = false := by
+  unfold lessTL; split <;> simp
+
+theorem mem_insertBy {tb : Bool} {x y : TermLocation} {l : List TermLocation} :
+    y ∈ insertBy tb x l ↔ y = x ∨ y ∈ l := by
   induction l with
-  | nil => simp [insertByStart]
+  | nil => simp [insertBy]
   | cons z zs ih =>
-    simp only [insertByStart]
+    simp only [insertBy]
     split
     · simp
     · simp only [List.mem_cons, ih]
@@ -24,64 +49,88 @@ theorem mem_insertByStart {x y : TermLocation} {l : List TermLocation} :
         · exact Or.inl h
         · exact Or.inr (Or.inr h)
 
-theorem mem_orderTermLocations {y : TermLocation} {locs : List TermLocation} :
-    y ∈ orderTermLocations locs ↔ y ∈ locs := by
+theorem mem_orderTermLocations {tb : Bool} {y : TermLocation} {locs : List TermLocation} :
+    y ∈ orderTermLocations tb locs ↔ y ∈ locs := by
   induction locs with
   | nil => simp [orderTermLocations]
   | cons x xs ih =>
-    have : orderTermLocations (x :: xs) = insertByStart x (orderTermLocations xs) := rfl
-    rw [this, mem_insertByStart, ih]; simp
+    have : orderTermLocations tb (x :: xs) = insertBy tb x (orderTermLocations tb xs) := rfl
+    rw [this, mem_insertBy, ih]; simp
 
-theorem orderTermLocations_nil_iff {locs : List TermLocation} : orderTermLocations locs = [] ↔ locs = [] := by
-  constructor
-  · intro h
-    cases locs with
-    | nil => rfl
-    | cons x xs =>
-      have : x ∈ orderTermLocations (x :: xs) := mem_orderTermLocations.mpr (by simp)
-      rw [h] at this; simp at this
-  · intro h; subst h; rfl
-
-theorem sorted_insertByStart {x : TermLocation} {l : List TermLocation} (h : sortedByStart l = true) :
-    sortedByStart (insertByStart x l) = true := by
+theorem insertBy_perm (tb : Bool) (x : TermLocation) (l : List TermLocation) : (insertBy tb x l).Perm (x :: l) := by
   induction l with
-  | nil => simp [insertByStart, sortedByStart]
+  | nil => exact List.Perm.refl _
   | cons y ys ih =>
-    simp only [insertByStart]
+    simp only [insertBy]
+    split
+    · exact List.Perm.refl _
+    · exact (List.Perm.cons y ih).trans (List.Perm.swap x y ys)
+
+/-- the stable sort is a permutation of its input -/
+theorem orderTermLocations_perm (tb : Bool) (locs : List TermLocation) : (orderTermLocations tb locs).Perm locs := by
+  induction locs with
+  | nil => exact List.Perm.refl _
+  | cons x xs ih =>
+    have : orderTermLocations tb (x :: xs) = insertBy tb x (orderTermLocations tb xs) := rfl
+    rw [this]
+    exact (insertBy_perm tb x _).trans (List.Perm.cons x ih)
+
+theorem sortedFor_insertBy {tb : Bool} {x : TermLocation} {l : List TermLocation} (h : sortedFor tb l = true) :
+    sortedFor tb (insertBy tb x l) = true := by
+  induction l with
+  | nil => simp [insertBy, sortedFor]
+  | cons y ys ih =>
+    simp only [insertBy]
     split
     · rename_i hlt
-      simp only [sortedByStart, Bool.and_eq_true, decide_eq_true_eq]
-      exact ⟨by omega, h⟩
+      have hyx : lessTL tb y x = false := lessTL_asymm hlt
+      simp only [sortedFor, hyx, Bool.not_false, Bool.true_and]
+      exact h
     · rename_i hge
+      have hge' : lessTL tb x y = false := by simpa using hge
       cases ys with
-      | nil =>
-        simp only [insertByStart, sortedByStart, Bool.and_eq_true, decide_eq_true_eq, and_true]
-        omega
+      | nil => simp [insertBy, sortedFor, hge']
       | cons z zs =>
-        simp only [sortedByStart, Bool.and_eq_true, decide_eq_true_eq] at h
+        simp only [sortedFor, Bool.and_eq_true, Bool.not_eq_eq_eq_not, Bool.not_true] at h
         have ih' := ih h.2
-        simp only [insertByStart] at ih' ⊢
+        simp only [insertBy] at ih' ⊢
         split
         · rename_i hlt
           simp only [hlt, if_true] at ih'
-          simp only [sortedByStart, Bool.and_eq_true, decide_eq_true_eq] at ih' ⊢
-          exact ⟨by omega, by omega, h.2⟩
+          simp only [sortedFor, Bool.and_eq_true, Bool.not_eq_eq_eq_not, Bool.not_true]
+          simp only [sortedFor, Bool.and_eq_true, Bool.not_eq_eq_eq_not, Bool.not_true] at ih'
+          exact ⟨hge', ih'.1, h.2⟩
         · rename_i hge2
           simp only [hge2, if_false] at ih'
-          simp only [sortedByStart, Bool.and_eq_true, decide_eq_true_eq]
+          simp only [sortedFor, Bool.and_eq_true, Bool.not_eq_eq_eq_not, Bool.not_true]
           exact ⟨h.1, ih'⟩
 
-/-- OrderTermLocations returns the locations sorted by Start -/
-theorem sorted_orderTermLocations (locs : List TermLocation) : sortedByStart (orderTermLocations locs) = true := by
+/-- the stable sort is sorted for `Less` -/
+theorem sortedFor_orderTermLocations (tb : Bool) (locs : List TermLocation) :
+    sortedFor tb (orderTermLocations tb locs) = true := by
   induction locs with
   | nil => rfl
-  | cons x xs ih => exact sorted_insertByStart ih
+  | cons x xs ih => exact sortedFor_insertBy ih
+
+/-- a `Less`-sorted list is sorted by Start -/
+theorem sortedByStart_of_sortedFor {tb : Bool} : ∀ {l : List TermLocation}, sortedFor tb l = true → sortedByStart l = true
+  | [], _ => rfl
+  | [_], _ => rfl
+  | a :: b :: rest, h => by
+    simp only [sortedFor, Bool.and_eq_true, Bool.not_eq_eq_eq_not, Bool.not_true] at h
+    simp only [sortedByStart, Bool.and_eq_true, decide_eq_true_eq]
+    exact ⟨not_lessTL_start h.1, sortedByStart_of_sortedFor h.2⟩
+
+/-- OrderTermLocations returns the locations sorted by Start -/
+theorem sorted_orderTermLocations (tb : Bool) (locs : List TermLocation) :
+    sortedByStart (orderTermLocations tb locs) = true :=
+  sortedByStart_of_sortedFor (sortedFor_orderTermLocations tb locs)
 
 /-! ### MergeOverlapping -/
 
-theorem mergeLoop_fst_start (last : TermLocation) (rest : List TermLocation) :
-    (mergeLoop last rest).1.start = last.start ∧ (mergeLoop last rest).1.term = last.term ∧
-    (mergeLoop last rest).1.pos = last.pos := by
+theorem mergeLoop_fst_start (mx : Bool) (last : TermLocation) (rest : List TermLocation) :
+    (mergeLoop mx last rest).1.start = last.start ∧ (mergeLoop mx last rest).1.term = last.term ∧
+    (mergeLoop mx last rest).1.pos = last.pos := by
   induction rest generalizing last with
   | nil => simp [mergeLoop]
   | cons tl rest ih =>
@@ -90,22 +139,28 @@ theorem mergeLoop_fst_start (last : TermLocation) (rest : List TermLocation) :
     · exact ih _
     · exact ih _
 
-theorem mergeLoop_fst_stop (last : TermLocation) (rest : List TermLocation) :
-    (mergeLoop last rest).1.stop = last.stop ∨ ∃ tl ∈ rest, (mergeLoop last rest).1.stop = tl.stop := by
+theorem mergeLoop_fst_stop (mx : Bool) (last : TermLocation) (rest : List TermLocation) :
+    (mergeLoop mx last rest).1.stop = last.stop ∨ ∃ tl ∈ rest, (mergeLoop mx last rest).1.stop = tl.stop := by
   induction rest generalizing last with
   | nil => simp [mergeLoop]
   | cons tl rest ih =>
     simp only [mergeLoop]
     split
-    · rcases ih { last with stop := tl.stop } with h | ⟨x, hx, h⟩
-      · exact Or.inr ⟨tl, by simp, h⟩
-      · exact Or.inr ⟨x, by simp [hx], h⟩
+    · by_cases hc : (mx && decide (tl.stop ≤ last.stop)) = true
+      · simp only [hc, if_true]
+        rcases ih { last with stop := last.stop } with h | ⟨x, hx, h⟩
+        · exact Or.inl h
+        · exact Or.inr ⟨x, by simp [hx], h⟩
+      · simp only [hc, if_false]
+        rcases ih { last with stop := tl.stop } with h | ⟨x, hx, h⟩
+        · exact Or.inr ⟨tl, by simp, h⟩
+        · exact Or.inr ⟨x, by simp [hx], h⟩
     · rcases ih last with h | ⟨x, hx, h⟩
       · exact Or.inl h
       · exact Or.inr ⟨x, by simp [hx], h⟩
 
-theorem mergeLoop_snd_mem (last : TermLocation) (rest : List TermLocation) (x : TermLocation) :
-    some x ∈ (mergeLoop last rest).2 → x ∈ rest := by
+theorem mergeLoop_snd_mem (mx : Bool) (last : TermLocation) (rest : List TermLocation) (x : TermLocation) :
+    some x ∈ (mergeLoop mx last rest).2 → x ∈ rest := by
   induction rest generalizing last with
   | nil => simp [mergeLoop]
   | cons tl rest ih =>
@@ -129,20 +184,23 @@ theorem overlaps_le_stop {a b : TermLocation} (_ha : a.start ≤ a.stop) (hb : b
     · omega
     · simp at h
 
-theorem mergeLoop_fst_le (last : TermLocation) (rest : List TermLocation)
+theorem mergeLoop_fst_le (mx : Bool) (last : TermLocation) (rest : List TermLocation)
     (hl : last.start ≤ last.stop) (hr : ∀ l ∈ rest, l.start ≤ l.stop) :
-    (mergeLoop last rest).1.start ≤ (mergeLoop last rest).1.stop := by
+    (mergeLoop mx last rest).1.start ≤ (mergeLoop mx last rest).1.stop := by
   induction rest generalizing last with
   | nil => simpa [mergeLoop] using hl
   | cons tl rest ih =>
     simp only [mergeLoop]
     split
     · rename_i hov
-      exact ih _ (by have := overlaps_le_stop hl (hr tl (by simp)) hov; exact this) (fun l h => hr l (by simp [h]))
+      refine ih _ ?_ (fun l h => hr l (by simp [h]))
+      have := overlaps_le_stop hl (hr tl (by simp)) hov
+      simp only []
+      split <;> omega
     · exact ih _ hl (fun l h => hr l (by simp [h]))
 
 /-- every entry MergeOverlapping leaves starts where some location starts and ends where some location ends -/
-theorem mergeOverlapping_mem {locs : List TermLocation} {m : TermLocation} (h : some m ∈ mergeOverlapping locs) :
+theorem mergeOverlapping_mem {mx : Bool} {locs : List TermLocation} {m : TermLocation} (h : some m ∈ mergeOverlapping mx locs) :
     (∃ l ∈ locs, m.start = l.start ∧ m.term = l.term) ∧ (∃ l ∈ locs, m.stop = l.stop) := by
   cases locs with
   | nil => simp [mergeOverlapping] at h
@@ -150,27 +208,27 @@ theorem mergeOverlapping_mem {locs : List TermLocation} {m : TermLocation} (h : 
     simp only [mergeOverlapping, List.mem_cons, Option.some.injEq] at h
     rcases h with h | h
     · subst h
-      have h1 := mergeLoop_fst_start hd tl
+      have h1 := mergeLoop_fst_start mx hd tl
       refine ⟨⟨hd, by simp, h1.1, h1.2.1⟩, ?_⟩
-      rcases mergeLoop_fst_stop hd tl with h2 | ⟨x, hx, h2⟩
+      rcases mergeLoop_fst_stop mx hd tl with h2 | ⟨x, hx, h2⟩
       · exact ⟨hd, by simp, h2⟩
       · exact ⟨x, by simp [hx], h2⟩
-    · have := mergeLoop_snd_mem hd tl m h
+    · have := mergeLoop_snd_mem mx hd tl m h
       exact ⟨⟨m, by simp [this], rfl, rfl⟩, ⟨m, by simp [this], rfl⟩⟩
 
-theorem mergeOverlapping_le {locs : List TermLocation} (hr : ∀ l ∈ locs, l.start ≤ l.stop)
-    {m : TermLocation} (h : some m ∈ mergeOverlapping locs) : m.start ≤ m.stop := by
+theorem mergeOverlapping_le {mx : Bool} {locs : List TermLocation} (hr : ∀ l ∈ locs, l.start ≤ l.stop)
+    {m : TermLocation} (h : some m ∈ mergeOverlapping mx locs) : m.start ≤ m.stop := by
   cases locs with
   | nil => simp [mergeOverlapping] at h
   | cons hd tl =>
     simp only [mergeOverlapping, List.mem_cons, Option.some.injEq] at h
     rcases h with h | h
     · subst h
-      exact mergeLoop_fst_le hd tl (hr hd (by simp)) (fun l hl => hr l (by simp [hl]))
-    · exact hr m (by simp [mergeLoop_snd_mem hd tl m h])
+      exact mergeLoop_fst_le mx hd tl (hr hd (by simp)) (fun l hl => hr l (by simp [hl]))
+    · exact hr m (by simp [mergeLoop_snd_mem mx hd tl m h])
 
-theorem mergeLoop_of_no_overlap (last : TermLocation) (rest : List TermLocation)
-    (h : ∀ tl ∈ rest, last.overlaps tl = false) : mergeLoop last rest = (last, rest.map some) := by
+theorem mergeLoop_of_no_overlap (mx : Bool) (last : TermLocation) (rest : List TermLocation)
+    (h : ∀ tl ∈ rest, last.overlaps tl = false) : mergeLoop mx last rest = (last, rest.map some) := by
   induction rest with
   | nil => rfl
   | cons tl rest ih =>
@@ -193,15 +251,15 @@ theorem disjoint_head_le {a : TermLocation} {rest : List TermLocation}
       omega
 
 /-- on the locations a tokenizer produces (sorted, disjoint, non-empty) MergeOverlapping changes nothing -/
-theorem mergeOverlapping_of_disjoint {locs : List TermLocation} (hd : disjointLocs locs = true)
-    (hne : ∀ l ∈ locs, l.start < l.stop) : mergeOverlapping locs = locs.map some := by
+theorem mergeOverlapping_of_disjoint {mx : Bool} {locs : List TermLocation} (hd : disjointLocs locs = true)
+    (hne : ∀ l ∈ locs, l.start < l.stop) : mergeOverlapping mx locs = locs.map some := by
   cases locs with
   | nil => rfl
   | cons a rest =>
     simp only [mergeOverlapping, List.map_cons]
     have hle := disjoint_head_le hd (fun l hl => hne l (by simp [hl]))
     have ha := hne a (by simp)
-    rw [mergeLoop_of_no_overlap a rest]
+    rw [mergeLoop_of_no_overlap mx a rest]
     intro tl htl
     have h1 := hle tl htl
     have h2 := hne tl (by simp [htl])
